@@ -24,7 +24,10 @@ non-negative weight) and, for routes, `FirstOk g` (`Traverse(p)` yields segments
 * `search_to_correct`, `search_to_route`, `early_stop_second_condition_dead`   `ExpandSearchTo`'s early stop
 * `heap_pop_min`, `heap_push_preserves`, `heap_fix_preserves`, `runHU_eq_runH_of_heap`   the queue is a binary
                            heap of the unvisited entries; `Pop` returns a queued minimum; the run-time check is redundant
-* `searchU_reach`, `searchU_optimal`   unconditional: the unchecked loop from a single origin
+* `searchU_reach`, `searchU_optimal`, `searchToU_eq_searchTo`, `searchToU_correct`   unconditional: the unchecked
+                           loops (`ExpandSearch`, `ExpandSearchTo` incl. early stop) from any origin list
+* `accessibility_keeps_node_distances`, `accessibility_interpolates_only_unreached`   `ComputeAccessibility`
+* `searchU_total_correct`, `searchToU_terminates`   termination with fuel |V| on a finite closed vertex set
 * `search_to_known_destination_correct`   `ExpandSearchTo` towards a point the search already knows (the origin)
 * `runH_reach`, `search_reach`, `searchTo_reach`   the executable heap-driven model (`runH`, the one the driver
                            runs) only produces runs of the abstract search
@@ -316,26 +319,150 @@ theorem runHU_eq_runH_of_heap (g : Graph P S α) (max : α) (to : Option P) (fue
     (hI : HInv s) : runHU g max to fuel s = runH g max to fuel s :=
   runHU_eq_runH g max to fuel s hI
 
-/-- **Unconditional run theorem**: `NewShortestPathSearchFromPoint(o)` + `ExpandSearch(max)` with the real
-binary heap and *no* run-time check (`searchU`): a finished run is a run of the abstract search. -/
-theorem searchU_reach (g : Graph P S α) (max : α) (o : P) (fuel : Nat) (s' : HState P S α)
-    (h : searchU g max [o] fuel = .done s') : ∃ tr, Reach g max (initTable [o]) tr s'.t := by
+/-- **Unconditional run theorem**: `NewShortestPathSearch…` (any list of origins, duplicates allowed) +
+`ExpandSearch(max)` with the real binary heap and *no* run-time check (`searchU`): a finished run is a run of the
+abstract search. -/
+theorem searchU_reach (g : Graph P S α) (max : α) (origins : List P) (fuel : Nat) (s' : HState P S α)
+    (h : searchU g max origins fuel = .done s') : ∃ tr, Reach g max (initTable origins) tr s'.t := by
   unfold searchU at h
-  rw [runHU_eq_runH g max none fuel _ (HInv.init o)] at h
-  exact search_reach g max [o] fuel s' h
+  rw [runHU_eq_runH g max none fuel _ (HInv.initList origins)] at h
+  exact search_reach g max origins fuel s' h
 
 /-- **Unconditional optimality**: whatever `searchU` returns when it finishes is the true answer — every
 recorded distance is a walk cost and at most every walk cost, and every point with a walk cheaper than `max` is
 recorded. No hypothesis about the heap, the pops or `allVisited`. -/
-theorem searchU_optimal (hN : NonNeg g) (o : P) (fuel : Nat) (s' : HState P S α)
-    (h : searchU g max [o] fuel = .done s') :
+theorem searchU_optimal (hN : NonNeg g) (fuel : Nat) (s' : HState P S α)
+    (h : searchU g max origins fuel = .done s') :
     (∀ p e, tget s'.t p = some e →
-      (∃ es, Walk g [o] p e.dist es) ∧ ∀ c es, Walk g [o] p c es → e.dist ≤ c) ∧
-    (∀ p c es, Walk g [o] p c es → c < max → ∃ e, tget s'.t p = some e ∧ e.dist ≤ c) := by
-  obtain ⟨tr, hr⟩ := searchU_reach g max o fuel s' h
+      (∃ es, Walk g origins p e.dist es) ∧ ∀ c es, Walk g origins p c es → e.dist ≤ c) ∧
+    (∀ p c es, Walk g origins p c es → c < max → ∃ e, tget s'.t p = some e ∧ e.dist ≤ c) := by
+  obtain ⟨tr, hr⟩ := searchU_reach g max origins fuel s' h
   unfold searchU at h
-  rw [runHU_eq_runH g max none fuel _ (HInv.init o)] at h
-  exact dijkstra_optimal_of_settled hN hr (runH_done_allVisited g max fuel _ s' (HInv.init o) h)
+  rw [runHU_eq_runH g max none fuel _ (HInv.initList origins)] at h
+  exact dijkstra_optimal_of_settled hN hr (runH_done_allVisited g max fuel _ s' (HInv.initList origins) h)
+
+/-- **Termination**: for a finite vertex set `V` that contains the origins and is closed under `Traverse`, the
+search finishes with fuel `|V|` — it never runs out of fuel, never gets stuck in the heap, never pops a non-minimum —
+and its result is the true answer. -/
+theorem searchU_total_correct (hN : NonNeg g) (V : List P) (hV : ∀ o, o ∈ origins → o ∈ V)
+    (hclosed : ∀ p, p ∈ V → ∀ e, e ∈ g.adj p → e.last ∈ V) :
+    ∃ s', searchU g max origins V.length = .done s' ∧
+      (∀ p e, tget s'.t p = some e →
+        (∃ es, Walk g origins p e.dist es) ∧ ∀ c es, Walk g origins p c es → e.dist ≤ c) ∧
+      (∀ p c es, Walk g origins p c es → c < max → ∃ e, tget s'.t p = some e ∧ e.dist ≤ c) := by
+  have hkeys : ∀ p x, tget (initTable origins : Table P S α) p = some x → p ∈ V := by
+    intro p x hp
+    rw [initTable_get] at hp
+    by_cases hpo : p ∈ origins
+    · exact hV p hpo
+    · simp [hpo] at hp
+  obtain ⟨s', hs'⟩ := runH_finishes g max none V hclosed V.length
+    { t := initTable origins, heap := initHeap origins } (HInv.initList origins) hkeys
+    (List.length_filter_le _ _)
+  have hU : searchU g max origins V.length = .done s' := by
+    unfold searchU
+    rw [runHU_eq_runH g max none _ _ (HInv.initList origins)]; exact hs'
+  exact ⟨s', hU, searchU_optimal hN V.length s' hU⟩
+
+/-- the unchecked `ExpandSearchTo` loop equals the checked one -/
+theorem searchToU_eq_searchTo (g : Graph P S α) (max inf : α) (origins : List P) (dest : P) (fuel : Nat) :
+    searchToU g max inf origins dest fuel = searchTo g max inf origins dest fuel := by
+  obtain ⟨s, hs, hI, _, _⟩ := searchToStart_spec (S := S) origins dest inf
+  unfold searchToU searchTo
+  rw [hs]
+  exact runHU_eq_runH g max (some dest) fuel s hI
+
+/-- **Unconditional `ExpandSearchTo`** (real heap, no check, any origin list, `dest` known or not): when the loop
+finishes, `dest` is settled; if its recorded distance is below the limit it is the true shortest distance, otherwise
+no walk to `dest` is cheaper than the limit. -/
+theorem searchToU_correct (hN : NonNeg g) {inf : α} (hinf : ¬ inf < max) (dest : P) (fuel : Nat)
+    (s' : HState P S α) (h : searchToU g max inf origins dest fuel = .done s') :
+    ∃ e, tget s'.t dest = some e ∧ e.visited = true ∧
+      (e.dist < max → (∃ es, Walk g origins dest e.dist es) ∧ ∀ c es, Walk g origins dest c es → e.dist ≤ c) ∧
+      (¬ e.dist < max → ∀ c es, Walk g origins dest c es → ¬ c < max) := by
+  rw [searchToU_eq_searchTo] at h
+  obtain ⟨s, hs, hI, hq, hst⟩ := searchToStart_spec (S := S) origins dest inf
+  unfold searchTo at h
+  rw [hs] at h
+  obtain ⟨tr, t, r, hr, hmin, hmark⟩ := runH_to_spec g max dest fuel s s' hI hq h
+  have hr0 : tget t dest = some r ∧ s'.t = tput t dest { r with visited := true } := by
+    unfold markVisited at hmark
+    cases hg : tget t dest with
+    | none => simp [hg] at hmark
+    | some r' =>
+      simp [hg] at hmark
+      obtain ⟨h1, h2⟩ := hmark
+      subst h2
+      exact ⟨rfl, h1.symm⟩
+  obtain ⟨hrd, hs't⟩ := hr0
+  refine ⟨{ r with visited := true }, by rw [hs't]; exact get_put_self _ _ _, rfl, ?_⟩
+  cases hd : tget (initTable origins : Table P S α) dest with
+  | some e0 =>
+    rw [hd] at hst
+    rw [hst] at hr
+    have hopt := search_to_known_destination_correct (e := r) hN hr hrd hmin
+    exact ⟨fun _ => hopt, fun hnlt c es hw hc => hnlt (lt_of_le_of_lt (hopt.2 c es hw) hc)⟩
+  | none =>
+    rw [hd] at hst
+    rw [hst] at hr
+    have hdo : dest ∉ origins := by
+      intro hmem
+      rw [initTable_get] at hd; simp [hmem] at hd
+    exact search_to_correct (e := r) hN hdo hinf hr hrd hmin
+
+/-- `ExpandSearchTo` also terminates with fuel `|V|` on a finite closed vertex set containing origins and `dest`. -/
+theorem searchToU_terminates (V : List P) (hV : ∀ o, o ∈ origins → o ∈ V) {dest : P} (hdV : dest ∈ V)
+    (hclosed : ∀ p, p ∈ V → ∀ e, e ∈ g.adj p → e.last ∈ V) (inf : α) :
+    ∃ s', searchToU g max inf origins dest V.length = .done s' := by
+  rw [searchToU_eq_searchTo]
+  obtain ⟨s, hs, hI, _, hst⟩ := searchToStart_spec (S := S) origins dest inf
+  unfold searchTo
+  rw [hs]
+  have hkeys : ∀ p x, tget s.t p = some x → p ∈ V := by
+    intro p x hp
+    rw [hst] at hp
+    have hinit : ∀ p x, tget (initTable origins : Table P S α) p = some x → p ∈ V := by
+      intro p x hp
+      rw [initTable_get] at hp
+      by_cases hpo : p ∈ origins
+      · exact hV p hpo
+      · simp [hpo] at hp
+    cases hd : tget (initTable origins : Table P S α) dest with
+    | some e0 => rw [hd] at hp; exact hinit p x hp
+    | none =>
+      rw [hd] at hp
+      simp only at hp
+      rw [get_put] at hp
+      by_cases hpd : p = dest
+      · rw [hpd]; exact hdV
+      · simp [hpd] at hp; exact hinit p x hp
+  exact runH_finishes g max (some dest) V hclosed V.length s hI hkeys (List.length_filter_le _ _)
+
+/-! ### `ComputeAccessibility` -/
+
+/-- **Reached points keep the distance the search found** in `ComputeAccessibility`'s result (so everything proved
+about `PointDistances` — `searchU_optimal` — holds for it), whatever the geometry of the paths. -/
+theorem accessibility_keeps_node_distances (t : Table P S α) (segPoints : S → List P) {p : P}
+    {e : Entry P S α} (hp : tget t p = some e) : accGet (accessibility t segPoints) p = some (some e.dist) := by
+  unfold accessibility
+  generalize (interpolatedPoints t segPoints).map (fun q => ((q, none) : P × Option α)) = rest
+  induction t with
+  | nil => simp [tget] at hp
+  | cons hd tl ih =>
+    obtain ⟨k, x⟩ := hd
+    by_cases hk : k = p
+    · simp [tget, hk] at hp; subst hp; simp [accGet, hk]
+    · simp [tget, hk] at hp; simp [accGet, hk]; exact ih hp
+
+/-- only points the search did not reach are interpolated -/
+theorem accessibility_interpolates_only_unreached (t : Table P S α) (segPoints : S → List P) {q : P}
+    (hq : q ∈ interpolatedPoints t segPoints) : tget t q = none := by
+  unfold interpolatedPoints at hq
+  rw [B6.Lemmas.DijkstraHeap.mem_dedup] at hq
+  have := (List.mem_filter.mp hq).2
+  cases h : tget t q with
+  | none => rfl
+  | some e => simp [h] at this
 
 end B6.Props.C30
 
